@@ -123,6 +123,32 @@ func TestC06(t *testing.T) {
 		rec.Extra("exhaustive_depth", depth)
 		rec.Extra("alphabet_size", len(alphabet))
 	}
+	// every run: a burst of flows far beyond the handful the histories use (the queue and the map grow
+	// and empty again), judged by the same model
+	if ev.Shard() <= 1 {
+		n := 2500
+		if rec.Thorough() {
+			n = 8000
+		}
+		c := aggh.XCase{ActiveSec: timeouts[0][0], InactiveSec: timeouts[0][1]}
+		for i := 0; i < n; i++ {
+			c.Flows = append(c.Flows, aggh.FlowDef{Src: fmt.Sprintf("10.%d.%d.%d", 1+i/65536, (i/256)%256, i%256), Dst: "10.0.1.2", SPort: 1000, DPort: 80, Proto: 6, Kind: aggh.KindIntraNode})
+			c.Ops = append(c.Ops, aggh.XOp{Kind: "rec", Flow: i})
+		}
+		c.Ops = append(c.Ops, aggh.XOp{Kind: "advance", Hours: 1})
+		for i := 0; i < n; i += 3 { // a third of the flows stay alive
+			c.Ops = append(c.Ops, aggh.XOp{Kind: "rec", Flow: i})
+		}
+		c.Ops = append(c.Ops, aggh.XOp{Kind: "advance", Hours: 3}, aggh.XOp{Kind: "scan"}, aggh.XOp{Kind: "scan"},
+			aggh.XOp{Kind: "advance", Hours: 4}, aggh.XOp{Kind: "scan"}, aggh.XOp{Kind: "rec", Flow: 7}, aggh.XOp{Kind: "advance", Hours: 11}, aggh.XOp{Kind: "scan"}, aggh.XOp{Kind: "scan"})
+		st := &aggh.XStats{}
+		f := aggh.RunX(c, st)
+		rec.Case(ev.Hash([]any{"burst", n}), true, "burst_of_flows")
+		if f != nil {
+			rec.Violation("burst", c, f.Msg)
+			t.Fatalf("burst of %d flows: %s", n, f.Msg)
+		}
+	}
 	ev.Rapid(t, rec, "random", rec.Scale(3000, 1500000), func(t *rapid.T) aggh.XCase {
 		to := timeoutsRandom[rapid.IntRange(0, len(timeoutsRandom)-1).Draw(t, "to")]
 		// beyond the exhaustive alphabet: a fourth flow that is only ready once both of its nodes reported
